@@ -8,6 +8,9 @@ Monitor, on the IMPLEMENTATION's observations only (previous vs. current observa
                         status time changed the member's status or status time, or was re-queued
   newer-intent-not-recorded  a newer join / leave intent about a listed member (other than a leave claim about the
                         running local node, which is refuted instead) did not become the member's status time
+  rejoined-stuck-leaving  a join intent about a member that memberlist reports up is ignored because its Lamport
+                        time EQUALS the status time set by the artificial leave intent of a merge (stale LeftMembers
+                        entry of a peer, time StatusLTimes+1): the running member stays `leaving`   — recorded finding
   merge-stale-applied   same, for an entry of a push/pull merge (left member ⇒ leave at t+1, else join at t)
 -/
 namespace SerfModel.Check.C02
@@ -15,6 +18,11 @@ open SerfModel SerfModel.Check SerfModel.Node SerfModel.Check.NodeCommon
 
 structure St where
   base : Base := {}
+  /-- monitor: last memberlist notification per member (true = NotifyJoin) -/
+  mlUp : List (Name × Bool) := []
+  /-- monitor: members that a merge's artificial leave intent (LeftMembers entry, time StatusLTimes+1)
+  turned from alive to leaving while memberlist reports them up, with that artificial time -/
+  artLeave : List (Name × Nat) := []
   deriving Inhabited
 
 def monotone (prev cur : Obs) : Option (String × String) :=
@@ -60,10 +68,30 @@ def step (s : St) (f : List String) (impl : String) : LineOut St :=
   | .localState => { state := s, model := some out }
   | _ =>
     match parseObs impl with
-    | none => { state := { base := { s.base with node := n' } }, model := some out, monitor := some ("malformed", impl) }
+    | none => { state := { s with base := { s.base with node := n' } }, model := some out, monitor := some ("malformed", impl) }
     | some o =>
-      { state := { base := { node := n', prev := o } }, model := some out,
-        monitor := firstSome [monotone s.base.prev o, stale s.base.prev o h] }
+      let prev := s.base.prev
+      let mlUp := match h with
+        | .ops [.nodeJoin x] => ainsert s.mlUp x true
+        | .ops [.nodeLeave x _] => ainsert s.mlUp x false
+        | _ => s.mlUp
+      -- artificial leaves of this merge that turned a memberlist-alive member from alive to leaving
+      let art0 := s.artLeave.filter fun e => o.statusOf e.1 == some .leaving && o.ltimeOf e.1 == some e.2
+      let art := match h with
+        | .ops [.merge _ status left _] =>
+          left.foldl (fun acc x =>
+            let t := (((alookup status x).getD 0) + 1) % two64
+            if prev.statusOf x == some .alive && o.statusOf x == some .leaving && o.ltimeOf x == some t
+               && (alookup mlUp x).getD (x == selfName) then ainsert acc x t else acc) art0
+        | _ => art0
+      let stuck : Option (String × String) := match h with
+        | .ops [.joinMsg x t _] =>
+          if alookup s.artLeave x == some t && o.statusOf x == some .leaving && (alookup mlUp x).getD false then
+            some ("rejoined-stuck-leaving", s!"join intent of {x} at time {t} ignored: a merge's artificial leave already set status time {t}; memberlist reports {x} up, the node lists it as leaving")
+          else none
+        | _ => none
+      { state := { base := { node := n', prev := o }, mlUp := mlUp, artLeave := art }, model := some out,
+        monitor := firstSome [stuck, monotone prev o, stale prev o h] }
 
 def checker : Checker := { σ := St, init := {}, step := step }
 
